@@ -25,9 +25,9 @@ ConvVal(j) == [token |-> j.token, stake |-> j.stake, selfToken |-> j.selfToken, 
                dl |-> [i \in DOMAIN j.dl |-> [d |-> j.dl[i][1], token |-> j.dl[i][2], stake |-> j.dl[i][3]]]]
 \* withdraw records whose balance a penalty took to zero are finished and discarded by a later end-of-block phase
 \* (processWithdrawQueue), which is outside this model: queues are compared without them
-Live(q) == SelectSeq(q, LAMBDA r : r.fin > 0)
+Live(q) == SelectSeq(q, LAMBDA r : r.fin > 0 /\ r.done = 0)
 ConvProj(p) == [vals |-> [v \in DOMAIN p.vals |-> ConvVal(p.vals[v])],
-                wq |-> Live([i \in DOMAIN p.wq |-> [v |-> p.wq[i][1], d |-> p.wq[i][2], fin |-> p.wq[i][3], done |-> p.wq[i][4]]]),
+                wq |-> Live([i \in DOMAIN p.wq |-> [v |-> p.wq[i][1], d |-> p.wq[i][2], fin |-> p.wq[i][3], done |-> p.wq[i][4], ch |-> p.wq[i][6]]]),
                 pen |-> p.pen]
 LiveProj(p) == [p EXCEPT !.wq = Live(@)]
 ConvCase(c, e) == [signer |-> c.signer, idx |-> c.idx, kind |-> c.kind, roff |-> c.round - (e.parent - e.k), ri |-> c.ri,
